@@ -8,7 +8,7 @@ previous declaration and a declaration's keyword must be exactly the expected se
 
 from __future__ import annotations
 
-from ..core import Check, Viol, drive, gated_features, generic_replay, rng_for
+from ..core import Check, Viol, drive, gated_features, generic_replay, rng_for, noise_opts
 from ..run import Case
 from ..stubs import StubSet
 
@@ -231,7 +231,7 @@ def gen(tier: str, seed: int) -> list[Case]:
             text, gt = build_module(rng, gated, i * 10 + mi, 40)
             files[f"src/pk/mod{mi}.py"] = text
             gts[f"pk.mod{mi}"] = gt
-        cases.append(Case(cid=f"c20-{i}", files=files, opts=["-nc"] if i % 2 else [], meta={"gt": gts}, reach=REACH))
+        cases.append(Case(cid=f"c20-{i}", files=files, opts=(["-nc"] if i % 2 else []) + noise_opts(seed, PID, i), meta={"gt": gts}, reach=REACH))
     return cases
 
 
